@@ -30,6 +30,8 @@ pub struct Cfg {
     /// worker replaces the active blob as soon as the limit is reached; the driver mirrors every
     /// observed rotation into the model after the step
     pub auto_rotate: bool,
+    /// size limit of a blob file (None = practically unlimited); with `auto_rotate` the worker rotates on it
+    pub max_blob_size: Option<u64>,
     /// every `Restart` re-opens the directory under another bloom configuration (1 -> 3 -> 1 ... with an
     /// occasional 0): closed blobs written under different configurations then share filter groups
     pub bloom_flip: bool,
@@ -39,7 +41,7 @@ impl Cfg {
     pub fn to_json(&self) -> Value {
         json!({"keylen": self.keylen, "bloom": self.bloom, "group": self.group, "allow_dup": self.allow_dup,
                "mt": self.mt, "validate_data": self.validate_data, "ignore_corrupted": self.ignore_corrupted,
-               "max_dirty": self.max_dirty, "key_salt": self.key_salt, "n_keys": self.n_keys, "n_meta": self.n_meta, "max_records": self.max_records, "auto_rotate": self.auto_rotate, "bloom_flip": self.bloom_flip})
+               "max_dirty": self.max_dirty, "key_salt": self.key_salt, "n_keys": self.n_keys, "n_meta": self.n_meta, "max_records": self.max_records, "auto_rotate": self.auto_rotate, "bloom_flip": self.bloom_flip, "max_blob_size": self.max_blob_size})
     }
     pub fn from_json(v: &Value) -> Option<Cfg> {
         Some(Cfg {
@@ -57,12 +59,13 @@ impl Cfg {
             max_records: v.get("max_records").and_then(|x| x.as_u64()),
             auto_rotate: v.get("auto_rotate").and_then(|x| x.as_bool()).unwrap_or(false),
             bloom_flip: v.get("bloom_flip").and_then(|x| x.as_bool()).unwrap_or(false),
+            max_blob_size: v.get("max_blob_size").and_then(|x| x.as_u64()),
         })
     }
     pub fn default_for(n_keys: u16, n_meta: u8) -> Cfg {
         Cfg {
             keylen: 8, bloom: 1, group: 2, allow_dup: true, mt: true, validate_data: false,
-            ignore_corrupted: false, max_dirty: None, key_salt: 1, n_keys, n_meta, max_records: None, auto_rotate: false, bloom_flip: false,
+            ignore_corrupted: false, max_dirty: None, key_salt: 1, n_keys, n_meta, max_records: None, auto_rotate: false, bloom_flip: false, max_blob_size: None,
         }
     }
 }
@@ -218,6 +221,7 @@ pub struct Stats {
     pub disk_exact: u64,
     pub disk_bounded: u64,
     pub auto_rotations: u64,
+    pub auto_rotations_by_size: u64,
     pub bloom_flips: u64,
     pub overfull_steps: u64,
     pub abstract_states: std::collections::BTreeSet<u32>,
@@ -236,6 +240,8 @@ pub struct Driver<const N: usize> {
     pub offloaded: bool,
     /// keys whose expected state is unknown (partially applied operation under an injected fault)
     pub tainted: std::collections::BTreeSet<u16>,
+    /// ids of blob files that stay in the work dir unserved (ignore_corrupted)
+    pub ignored_ids: std::collections::BTreeSet<usize>,
     next_val: u64,
 }
 
@@ -266,7 +272,7 @@ pub fn builder_for(cfg: &Cfg, dir: &Path) -> Builder {
     let mut b = Builder::new()
         .work_dir(dir)
         .blob_file_name_prefix("t")
-        .max_blob_size(1 << 40)
+        .max_blob_size(cfg.max_blob_size.unwrap_or(1 << 40))
         .max_data_in_blob(cfg.max_records.unwrap_or(1_000_000_000))
         .set_bloom_filter_group_size(cfg.group)
         .set_deferred_index_dump_times(Duration::from_millis(1), Duration::from_millis(3))
@@ -336,7 +342,7 @@ impl<const N: usize> Driver<N> {
 
     pub fn new(dir: PathBuf, cfg: Cfg, hist_id: u64) -> Self {
         let model = Model::new(cfg.allow_dup);
-        Driver { dir, cfg, storage: None, model, hist_id, step: 0, stats: Stats::default(), quiescent: false, offloaded: false, tainted: Default::default(), next_val: 1 }
+        Driver { dir, cfg, storage: None, model, hist_id, step: 0, stats: Stats::default(), quiescent: false, offloaded: false, tainted: Default::default(), ignored_ids: Default::default(), next_val: 1 }
     }
 
     pub fn key(&self, k: u16) -> ArrayKey<N> {
@@ -384,7 +390,7 @@ impl<const N: usize> Driver<N> {
     }
 
     pub async fn step(&mut self, op: &Op) -> Result<(), Mismatch> {
-        let auto = self.cfg.auto_rotate && self.cfg.max_records.is_some() && matches!(op, Op::Put { .. } | Op::Del { .. });
+        let auto = self.cfg.auto_rotate && (self.cfg.max_records.is_some() || self.cfg.max_blob_size.is_some()) && matches!(op, Op::Put { .. } | Op::Del { .. });
         let before = if auto { Some((self.st().next_blob_id(), self.model.next_id)) } else { None };
         self.step_inner(op).await?;
         if let Some((real_before, model_before)) = before {
@@ -403,18 +409,24 @@ impl<const N: usize> Driver<N> {
         let real_after = self.st().next_blob_id();
         let expected = real_before + (self.model.next_id - model_before);
         let cnt = self.model.records_in_active().unwrap_or(0) as u64;
+        // the file length of the blob the model holds active (before a rotation is mirrored) is an observation
+        let flen = self.model.active.and_then(|a| std::fs::metadata(self.dir.join(format!("t.{}.blob", a))).ok()).map(|m| m.len()).unwrap_or(0);
+        let over = cnt >= limit || self.cfg.max_blob_size.map(|m| flen >= m).unwrap_or(false);
         if real_after == expected {
-            if cnt >= limit {
+            if over {
                 self.stats.overfull_steps += 1;
             }
             return Ok(());
         }
-        if real_after == expected + 1 && cnt >= limit {
+        if real_after == expected + 1 && over {
             self.model.force_update(true);
             self.stats.auto_rotations += 1;
+            if cnt < limit {
+                self.stats.auto_rotations_by_size += 1;
+            }
             return Ok(());
         }
-        Err(self.mm(Class::Lifecycle, "unexpected-rotation", format!("blob id counter moved from {} to {} (expected {}) with {} records in the model's active blob, limit {}", real_before, real_after, expected, cnt, limit)))
+        Err(self.mm(Class::Lifecycle, "unexpected-rotation", format!("blob id counter moved from {} to {} (expected {}) with {} records / {} bytes in the model's active blob, limits {} records / {:?} bytes", real_before, real_after, expected, cnt, flen, limit, self.cfg.max_blob_size)))
     }
 
     async fn step_inner(&mut self, op: &Op) -> Result<(), Mismatch> {
@@ -915,6 +927,10 @@ impl<const N: usize> Driver<N> {
                     continue;
                 }
                 let len = e.metadata().map(|m| m.len()).unwrap_or(0);
+                // blob files the storage skipped at init (ignore_corrupted) are on disk but not "used"
+                if crate::tap::blob_id_of(&p).map(|id| self.ignored_ids.contains(&id)).unwrap_or(false) {
+                    continue;
+                }
                 match p.extension().and_then(|x| x.to_str()) {
                     Some("blob") => {
                         blobs += len;
@@ -1156,4 +1172,47 @@ pub async fn close_monitored<const N: usize>(s: Storage<ArrayKey<N>>, dir: &Path
         let _ = tap::disarm(dir);
     }
     out
+}
+
+pub enum Monitored<T> {
+    Returned(T),
+    /// the future stayed pending although no file operation started, finished or was in flight for the
+    /// whole observation period (number of consecutive quiet samples)
+    HungQuiescent(u64),
+    /// still pending after the overall watchdog, but file operations kept happening: inconclusive
+    HungBusy,
+}
+
+/// Runs `fut` under the timing-free hang monitor used for `close()`: every 50 ms the I/O tap's event count
+/// and in-flight counter are sampled; "pending, and neither a tap event nor an operation in flight during
+/// `quiet_secs` seconds (at least 100 consecutive samples)" is a positive diagnosis of a hang. The tap must
+/// be armed for `dir`. pearl's own timers are at most 230 ms here, so a legitimate quiet wait is far shorter.
+pub async fn hang_monitored<T>(dir: &Path, quiet_secs: u64, watchdog_secs: u64, fut: impl std::future::Future<Output = T>) -> Monitored<T> {
+    use pearl::verif::tap;
+    tokio::pin!(fut);
+    let t0 = std::time::Instant::now();
+    let mut last_change = std::time::Instant::now();
+    let mut last_events = tap::count(dir);
+    let mut quiet = 0u64;
+    loop {
+        match tokio::time::timeout(Duration::from_millis(50), &mut fut).await {
+            Ok(r) => return Monitored::Returned(r),
+            Err(_) => {
+                let ev = tap::count(dir);
+                if tap::inflight() > 0 || ev != last_events {
+                    last_events = ev;
+                    last_change = std::time::Instant::now();
+                    quiet = 0;
+                } else {
+                    quiet += 1;
+                }
+                if quiet >= 100 && last_change.elapsed() > Duration::from_secs(quiet_secs) {
+                    return Monitored::HungQuiescent(quiet);
+                }
+                if t0.elapsed() > Duration::from_secs(watchdog_secs) {
+                    return Monitored::HungBusy;
+                }
+            }
+        }
+    }
 }
